@@ -226,7 +226,7 @@ fn finding_matches(k: &KnownFinding, v: &Violation, tainted: bool) -> bool {
         // history precondition: the run elected a leader from a node that reloaded a lower commit index while holding
         // >= 2 committed-but-unapplied membership entries, or, more generally, a leader whose own log held >= 2
         // membership entries beyond its applied index when it won (it campaigned two changes behind its log)
-        return tainted && k.property == v.prop && ["C01", "C02", "C03", "C04", "C05", "C09"].contains(&v.prop);
+        return tainted && k.property == v.prop && ["C01", "C02", "C03", "C04", "C05", "C07", "C09"].contains(&v.prop);
     }
     k.property == v.prop && k.check == v.check && v.sig.starts_with(&k.signature)
 }
